@@ -32,11 +32,13 @@ class TransformCase(Case):
     family = "transforms"
 
     def __init__(self, cid, *, N=2, L=1, C=1, K=1, ptypes=("absolute", "absolute"), boundary=("truncate_both", "truncate_both"),
-                 lkinds=("both",), nkinds=("both",), obj_scaler=True, con_scaler=True, offsets=True):
+                 lkinds=("both",), nkinds=("both",), obj_scaler=True, con_scaler=True, offsets=True, reuse=False, fail=False,
+                 var_bounds="both"):
         self.id = cid
         self.N, self.L, self.C, self.K = N, L, C, K
         self.ptypes, self.boundary, self.lkinds, self.nkinds = tuple(ptypes), tuple(boundary), tuple(lkinds), tuple(nkinds)
         self.obj_scaler, self.con_scaler, self.offsets = obj_scaler, con_scaler and C > 0, offsets
+        self.reuse, self.fail, self.var_bounds = reuse, fail, var_bounds
         self.family = "transforms/" + ("relative" if "relative" in ptypes else "absolute") + ("/linear" if L else "")
         lin = None
         if L:
@@ -46,21 +48,27 @@ class TransformCase(Case):
 
     def describe(self):
         return (f"N={self.N} linear={self.lkinds if self.L else ()} nonlinear={self.nkinds if self.C else ()} perturbations={self.ptypes} "
-                f"boundary={self.boundary} objective_scaler={self.obj_scaler} constraint_scaler={self.con_scaler} offsets={self.offsets}")
+                f"boundary={self.boundary} objective_scaler={self.obj_scaler} constraint_scaler={self.con_scaler} offsets={self.offsets} "
+                f"scaler_reused_after_another_config={self.reuse} evaluation_fails={self.fail} variable_bounds={self.var_bounds}")
 
     def inputs(self, env):
         N, L, C, K = self.N, self.L, self.C, self.K
-        lb = env.reals("lb", N, lo=-10, hi=10)
-        ub = env.reals("ub", N, lo=-10, hi=10)
         x = env.reals("x", N, lo=-10, hi=10)
-        for j in range(N):
-            env.assume(ub[j] - lb[j] >= Fraction(1, 10))
-            env.assume(And(x[j] >= lb[j], x[j] <= ub[j]))
+        if self.var_bounds == "none":
+            lb = np.array([-INF] * N, dtype=object)
+            ub = np.array([INF] * N, dtype=object)
+        else:
+            lb = env.reals("lb", N, lo=-10, hi=10)
+            ub = env.reals("ub", N, lo=-10, hi=10)
+            for j in range(N):
+                env.assume(ub[j] - lb[j] >= Fraction(1, 10))
+                env.assume(And(x[j] >= lb[j], x[j] <= ub[j]))
         s = env.reals("s", N, lo=Fraction(1, 10), hi=10)
         o = env.reals("o", N, lo=-5, hi=5) if self.offsets else None
         m = env.reals("m", N, lo=Fraction(1, 100), hi=2)
         z = env.reals("z", (1, 1, N), lo=-5, hi=5)                     # the perturbation sample
         A = env.reals("A", (L, N), lo=-5, hi=5) if L else None
+        A0 = env.reals("A0", (L, N), lo=-5, hi=5) if (L and self.reuse) else None   # rows of an earlier configuration
         if L:
             for i in range(L):
                 env.assume(Or(*[Not(A[i, j] == 0) for j in range(N)]))   # non-zero rows
@@ -70,7 +78,12 @@ class TransformCase(Case):
         cs = env.reals("cs", C, lo=Fraction(1, 10), hi=10) if self.con_scaler else None
         f = env.reals("f", (1, K), lo=-100, hi=100)                     # what the evaluator returns at x (user domain)
         g = env.reals("g", (1, C), lo=-100, hi=100) if C else None
-        return dict(lb=lb, ub=ub, x=x, s=s, o=o, m=m, z=z, A=A, llo=llo, lhi=lhi, nlo=nlo, nhi=nhi, os=os_, cs=cs, f=f, g=g)
+        if A0 is not None:
+            for i in range(L):
+                env.assume(Or(*[Not(A0[i, j] == 0) for j in range(N)]))
+        if self.fail:
+            f[0, 0] = SR(f[0, 0].v, True)     # the evaluation fails: no function values, bound/linear differences remain
+        return dict(lb=lb, ub=ub, x=x, s=s, o=o, m=m, z=z, A=A, A0=A0, llo=llo, lhi=lhi, nlo=nlo, nhi=nhi, os=os_, cs=cs, f=f, g=g)
 
     @staticmethod
     def bounds(env, name, kinds):
@@ -147,6 +160,11 @@ class TransformCase(Case):
             obj_scales=env.arr(inp["os"]) if self.obj_scaler else None,
             con_scales=env.arr(inp["cs"]) if self.con_scaler else None)
         a = self.one_side(env, inp, None)
+        if self.reuse:
+            # the same transforms object served another configuration (other linear rows) before this one
+            first = dict(inp)
+            first["A"] = inp["A0"]
+            self.build(env, first, tr)
         b = self.one_side(env, inp, tr)
         # to/from identity on an arbitrary vector
         v = env.arr(inp["z"][0, 0])
@@ -185,8 +203,11 @@ class TransformCase(Case):
         same_arrays("results.variables", ua.evaluations.variables, ub.evaluations.variables)
         same_arrays("results.realization_objectives", ua.evaluations.objectives, ub.evaluations.objectives)
         same_arrays("results.realization_constraints", ua.evaluations.constraints, ub.evaluations.constraints)
-        same_arrays("results.objectives", ua.functions.objectives, ub.functions.objectives)
-        same_arrays("results.constraints", ua.functions.constraints, ub.functions.constraints)
+        if ua.functions is None or ub.functions is None:
+            props.append(("results.functions_missing_on_both_sides", SB((ua.functions is None) == (ub.functions is None))))
+        else:
+            same_arrays("results.objectives", ua.functions.objectives, ub.functions.objectives)
+            same_arrays("results.constraints", ua.functions.constraints, ub.functions.constraints)
         ia, ib = ua.constraint_info, ub.constraint_info
         if (ia is None) != (ib is None):
             props.append(("constraint_info.reported_on_both_sides", SB(False)))
@@ -202,6 +223,9 @@ class TransformCase(Case):
         y = [inp["z"][0, 0, j] for j in range(N)]
         yo = [(y[j] - (inp["o"][j] if self.offsets else ZERO)) / inp["s"][j] for j in range(N)]
         for j in range(N):
+            if self.var_bounds == "none":
+                props.append((f"bounds{j}.stay_infinite", SB(lo[j].inf == -1 and uo[j].inf == 1)))
+                continue
             props.append((f"bounds{j}.feasible_iff_image_feasible",
                           Iff(And(y[j] >= inp["lb"][j], y[j] <= inp["ub"][j]), And(yo[j] >= lo[j], yo[j] <= uo[j]))))
         if self.L:
@@ -234,6 +258,9 @@ def build_cases(tier):
     add(N=2, L=1, C=0, lkinds=("both",), obj_scaler=False)
     add(N=2, L=1, C=1, lkinds=("upper",), nkinds=("lower",), ptypes=("absolute", "relative"), boundary=("none", "truncate_both"))
     add(N=2, L=1, C=0, lkinds=("eq",), offsets=False)
+    add(N=2, L=1, C=0, lkinds=("both",), obj_scaler=False, reuse=True)                       # scaler object used for two configurations
+    add(N=2, L=1, C=1, lkinds=("upper",), nkinds=("both",), fail=True)                         # a failed evaluation still reports bound/linear differences
+    add(N=2, L=1, C=0, lkinds=("both",), var_bounds="none", obj_scaler=False)                  # linear constraints without any finite variable bound
     if tier == "thorough":
         for lk in ("both", "lower", "upper", "eq"):
             add(N=2, L=1, C=1, lkinds=(lk,), nkinds=(lk,), ptypes=("relative", "absolute"), boundary=("mirror_both", "none"))
